@@ -173,6 +173,16 @@ func c16r3(r *R) {
 		}
 	})
 	o.Check(found, "serveConn does not wait on the Done channel of the context whose cancel func is the wrapper's Done")
+	// ... and the wrapper's Close fires Done on every path, otherwise the count never happens (shared with C11.R2)
+	t := c.Method("pkg/hack", "TLSClientHelloConn", "Close")
+	r.need(t != nil, "TLSClientHelloConn.Close not found")
+	o5 := r.Ob("C16.R3", "close-fires-done:"+funcName(t)).At(t.Pos())
+	p := c.escapePath(t, nil, func(i ssa.Instruction) bool {
+		cc := callOf(i)
+		_, isCall := i.(*ssa.Call)
+		return isCall && cc != nil && calleeName(cc) == "" && c.Expr(cc.Value) == "p0.Done"
+	}, isReturn)
+	o5.Check(p == nil, "a path through TLSClientHelloConn.Close does not call Done: the per-connection goroutine never gets to count that connection: %v", p)
 }
 
 func c16r4(r *R) {
